@@ -174,12 +174,12 @@ func zzStrKeyID(v Value) int {
 //
 //verif:unwind 200
 func zzH03_seed_dict() {
-	F := zzParam("longkeys", 2, 3)
-	L := zzParam("ops", 3, 4)
+	F := zzParam("longkeys", 1, 2)
+	L := zzParam("ops", 2, 3)
 	d := new(Dict)
 	m := new(zzAL)
-	// residents: short keys with fixed FNV hashes and one long key
-	resid := []String{"a", "b", "short", "resident-long-key"}
+	// residents: a short key with a fixed FNV hash and one long key
+	resid := []String{"short", "resident-long-key"}
 	for i, r := range resid {
 		id := 200 + i
 		if r == "short" {
@@ -330,7 +330,7 @@ func zzHashBuiltin(x Value) (int64, bool) {
 //
 //verif:unwind 400
 func zzH03_hash_string() {
-	n := zzChoice("len", zzParam("maxlen", 3, 4)+1)
+	n := zzChoice("len", zzParam("maxlen", 2, 3)+1)
 	s := zzString("s", n)
 	got, ok := zzHashBuiltin(String(s))
 	zzAssert(ok, "C03.hash.string.ok")
